@@ -198,10 +198,13 @@ C13_RetryIsTotalWait ==
 
 \* traffic below the limit is never delayed: a request whose own rate since
 \* the last consumption is at most the limit, while the tracked rate is at
-\* most the limit, cannot be refused
+\* most the limit, cannot be refused.  ub is an upper bound of the tracked
+\* rate rounded up to 1/1000 of the limit at every update, so the clause is
+\* stated with the margin of the two roundings (ub <= 995): inside
+\* (995, 1000] the envelope CanRefuse cannot tell the float result.
 C13_BelowLimitNeverDelayed ==
     [][(last'.res = "refuse" /\ last' # last) =>
-          ~(ub <= 1000 /\ lastW >= 0 /\ now - lastW > 0
+          ~(ub <= 995 /\ lastW >= 0 /\ now - lastW > 0
               /\ seen'[last'.s] <= now - lastW)]_vars
 
 \* a scheduled request is granted at its first retry
